@@ -326,7 +326,7 @@ def _write_replay(prop, case, rep):
 
 
 def _slim(r):
-    return {k: v for k, v in r.items() if k in ("status", "cls", "detail", "step", "vprop", "stats")}
+    return {k: v for k, v in r.items() if k in ("status", "cls", "detail", "step", "vprop", "stats", "info")}
 
 
 def write_evidence_file(prop, tier, seed, results, wall_s, t_run, startup, nworkers, b, truncated, nreported,
